@@ -416,7 +416,8 @@ pub fn main(tier: Option<&str>) {
     run.rule(
         "quotes: every subset (<=3 fields quick, all 2^10 thorough) of field mutations x pub_key in {n1,n2,garbage,empty} x signature \
          provenance in 7 variants x claimed identity in {n1,n2}; proofs: every sequence of <=3(4) entries over 5 entry kinds verified \
-         for n1,n2,n3; expiry: 10 ages each alone and inside a proof in both positions; history: 3x3x3x3 metric grid x both receivers. \
+         for n1,n2,n3; expiry: 10 ages each alone and inside a proof in both positions; history: 3x3x3x3 metric grid x both receivers; driver layer: every delivery order of every selection of <=3(4) quotes with \
+         distinct ages from a pool (3(4) ages x 3 live times x 2 payment counts) through a real SwarmDriver's QuoteVerification handling, the peer's issue list read after every delivery. \
          A case is non-trivial when at least one thing differs from the authentic quote / the proof is non-empty.",
     );
     run.assume("timestamp changes below one second are not judged: the signature covers whole seconds (reported in coverage.subsecond_timestamp_change_still_verifies)");
@@ -426,7 +427,45 @@ pub fn main(tier: Option<&str>) {
     proofs(&run);
     expiry(&run);
     historical(&run);
+    driver_layer(&run);
     run.finish();
+}
+
+/// Where the quotes of one peer actually meet: SwarmDriver::verify_peer_quote. Needs the driver rig, so it runs in
+/// the vcheck-node binary (chk-node/src/c13d.rs) as a subprocess; its cases, counts and violations are re-reported here.
+fn driver_layer(run: &Run) {
+    let exe = run.root.join("harness/target/verif/vcheck-node");
+    if !exe.exists() {
+        run.machinery_error("harness/target/verif/vcheck-node is missing: bin/check C13 builds it");
+    }
+    let out = match std::process::Command::new(&exe).arg("C13-driver").arg(if run.quick() { "quick" } else { "thorough" }).env("VERIF_ROOT", &run.root).output() {
+        Ok(o) => o,
+        Err(e) => run.machinery_error(&format!("cannot run the driver layer: {e}")),
+    };
+    let text = String::from_utf8_lossy(&out.stdout).to_string();
+    let summary = text.lines().find_map(|l| l.strip_prefix("C13D-SUMMARY ")).and_then(|j| serde_json::from_str::<serde_json::Value>(j).ok());
+    let Some(summary) = summary else {
+        run.machinery_error(&format!("the driver layer produced no summary (exit {:?}): {}", out.status.code(), String::from_utf8_lossy(&out.stderr).chars().take(400).collect::<String>()));
+    };
+    let n = summary["sequences"].as_u64().unwrap_or(0);
+    if n == 0 {
+        run.machinery_error("the driver layer explored nothing");
+    }
+    for i in 0..n {
+        run.case(format!("driver-layer sequence {i}").as_bytes(), true);
+    }
+    run.count("driver_layer_deliveries", summary["deliveries"].as_u64().unwrap_or(0));
+    let mut brief = summary.clone();
+    brief.as_object_mut().map(|m| m.remove("violations"));
+    run.extra("driver_layer", brief);
+    for v in summary["violations"].as_array().cloned().unwrap_or_default() {
+        run.violation(
+            v["clause"].as_str().unwrap_or("inconsistent-history-flagged"),
+            v["trigger"].as_str().unwrap_or("?"),
+            format!("driver layer: {}", v["what"].as_str().unwrap_or("")),
+            json!({"engine": "driver layer (vcheck-node C13-driver)", "witness": v["witness"]}),
+        );
+    }
 }
 
 pub fn replay(w: &serde_json::Value) {
